@@ -14,6 +14,7 @@ CONSTANTS
   MaxOps = 1
   MaxLive = 100
   WithRestart = TRUE
+  SimPrint = FALSE
   DelW = 1
   RestartW = 1
   PartialOverlapChecked = TRUE
